@@ -130,6 +130,11 @@ func (store *Store) GetBalance(ctx context.Context, address, asset string) (*big
 		return nil, err
 	}
 
+	if v.Balance == nil {
+		// no move of this asset on this account yet: get_account_balance() yields NULL
+		return new(big.Int), nil
+	}
+
 	return v.Balance, nil
 }
 
